@@ -219,6 +219,9 @@ class ProgGen:
                 cand = [x for x in pool if x not in used] or pool
                 if self.p("shadow") and used:
                     cand = list(used & set(pool)) or cand
+                if self.p("shadow") and (ctx["idxargs"] or ctx["sizes"]) and rng.random() < 0.5:
+                    # a loop variable that shares its NAME with a control argument (a distinct Sym)
+                    cand = list(ctx["idxargs"]) + list(ctx["sizes"])
                 nm = rng.choice(cand)
                 lo = rng.choice([1, 2, 3]) if self.p("nonzero_lo") else 0
                 if ctx["sizes"] and rng.random() < 0.5:
